@@ -88,7 +88,7 @@ Definition update (s : state) (input : bytes) : state :=
   else process_rest s input.
 
 (* the carry / conditional subtraction / pad section of finalize *)
-Definition finish (h : Z * Z * Z) (pad : Z * Z) : bytes :=
+Definition finish_words (h : Z * Z * Z) (pad : Z * Z) : Z * Z :=
   let '(h0, h1, h2) := h in
   let c := Z.shiftr h1 44 in
   let h1 := Z.land h1 m44 in
@@ -135,7 +135,10 @@ Definition finish (h : Z * Z * Z) (pad : Z * Z) : bytes :=
   let h2 := Z.land h2 m42 in
   let h0 := Z.lor h0 (shl64 h1 44) in
   let h1 := Z.lor (Z.shiftr h1 20) (shl64 h2 24) in
-  le_bytes 8 h0 ++ le_bytes 8 h1.
+  (h0, h1).
+
+Definition finish (h : Z * Z * Z) (pad : Z * Z) : bytes :=
+  let '(h0, h1) := finish_words h pad in le_bytes 8 h0 ++ le_bytes 8 h1.
 
 Definition finalize (s : state) : bytes :=
   let s :=
